@@ -27,6 +27,10 @@ def parse(stmt, line):
         return ("err", line[4:])
     if line == "bad-op":
         return ("err", "model-bad-op")
+    if cmd == "arrayneg":
+        return ("frames", [parse("frame x", part) for part in line.split(" ;; ")])
+    if cmd == "slicehist":
+        return ("vals", [pval(t) for t in line.split()])
     if cmd == "arraybin":
         return ("frames", [parse("frame x", part) for part in line.split(" ;; ")])
     if cmd == "arraysample":
